@@ -159,7 +159,7 @@ class HEXline(object):
             return "[%s]" % h
         if self.HEXcode == ExtendedSegmentAddress:
             return "[%s] %s" % (h, token_address_fmt(None, self.base))
-        if self.HEXcode == StartSegmentAdress:
+        if self.HEXcode == StartSegmentAddress:
             return "[%s] %s:%s" % (
                 h,
                 token_address_fmt(None, self.cs),
